@@ -285,12 +285,18 @@ func RunShards(r *Result, n int, extraArgs []string, perWorkerTimeout time.Durat
 }
 
 type tailBuf struct {
-	mu  sync.Mutex
-	buf []byte
+	mu    sync.Mutex
+	buf   []byte
+	first []byte // the first 16 KiB after the last mark (goroutine dumps start with the interesting part)
 }
+
+func (t *tailBuf) head() string { t.mu.Lock(); defer t.mu.Unlock(); return string(t.first) }
 
 func (t *tailBuf) Write(p []byte) (int, error) {
 	t.mu.Lock()
+	if len(t.first) < 1<<14 {
+		t.first = append(t.first, p...)
+	}
 	t.buf = append(t.buf, p...)
 	if len(t.buf) > 1<<16 {
 		t.buf = t.buf[len(t.buf)-(1<<16):]
